@@ -190,6 +190,23 @@ func Dups(n, steps int) *Scenario {
 	return &Scenario{Name: fmt.Sprintf("dups%d", n), Cfg: sim.Config{N: n}, Seed: seed}
 }
 
+// LeaveSilent: 5 validators; validator 4 asks to leave after `at` steps and goes silent ten steps later; after p more
+// steps validator 3 goes silent as well ("SP": the step records whether, at that moment, every remaining validator has
+// the leave in its validator-set table and a head in or after the round E from which the set has four members – from
+// then on the three remaining validators are more than two thirds of every round's set that still has to be built,
+// which is the premise of the liveness property; earlier, three of five are not). The remaining three go on for
+// `steps` steps.
+func LeaveSilent(at, p, steps int) *Scenario {
+	seed := FairSeed(seq(5), at, 4)
+	seed = append(seed, Action{K: "L", A: 4})
+	seed = append(seed, FairSeed(seq(5), 10, 5)...)
+	seed = append(seed, Action{K: "S", A: 4})
+	seed = append(seed, FairSeed([]int{0, 1, 2, 3}, p, 4)...)
+	seed = append(seed, Action{K: "SP", A: 3, B: 4})
+	seed = append(seed, FairSeed([]int{0, 1, 2}, steps, 4)...)
+	return &Scenario{Name: fmt.Sprintf("leavesilent@%d", p), Cfg: sim.Config{N: 5}, Seed: seed, CountsPremise: true}
+}
+
 // Burst: the static scenario in which, after `at` steps, validator 0's application submits k transactions in a row
 // (all pending when it records its next event) and, a few steps later, validator 1's application does the same.
 func Burst(n, at, k, steps int) *Scenario {
